@@ -225,6 +225,84 @@ def rule_r7(repo):
     rr.require_floor(3)
     return rr
 
+def rule_pipeline_compressed(repo, rule='C05.R13'):
+    """End-to-end fold on the concrete templates of rules/pipeline.py: the values of a subset (as the uncompressed decoder walk produces
+    them) are given to the encoder walk in compressed mode - twice the same subset, and a second subset whose numeric leaves differ -
+    and the fields it writes are read by the decoder walk in compressed mode.  Every subset must read back as it was given, with the
+    labels and attribute links of the uncompressed decoding; a field read with another kind or width than it was written with is a
+    layout disagreement."""
+    from sa.rules import pipeline as P
+    from sa.rules.c09 import TextInterp
+    rr = RuleResult(rule, 'compression is transparent, folded end to end on concrete templates: compressed encoding and decoding give back the subsets, with the labels and links of the uncompressed decoding')
+
+    def same(a, b):
+        if isinstance(a, float) or isinstance(b, float):
+            return a is not None and b is not None and not isinstance(a, bytes) and not isinstance(b, bytes) and abs(a - b) <= 1e-9 * max(1.0, abs(a))
+        return a == b
+
+    def labels(descs):
+        it = TextInterp(repo, None)
+        out = []
+        for d in descs:
+            fi = repo.method(d.cls, '__str__')
+            r = it.run_function(fi, lambda: {'self': d}, self_class=d.cls)
+            out.append(r[0].value if len(r) == 1 and r[0].ok else '?')
+        return out
+    for name in sorted(P.templates()):
+        members, script = P.templates()[name]
+        o = P.run_template(repo, name)
+        key = 'compressed:%s' % name.split(' (')[0].replace(' ', '-').replace(',', '')
+        if not o.decode.ok:
+            continue        # reported by C01.R14
+        # a second subset: same structure (replication factors, bitmap bits, code figures untouched), other temperatures / pressures
+        other = []
+        reads = list(o.reads)
+        for d, v in zip(o.descs, o.vals):
+            f = d.fields
+            kind_read = None
+            if not (d.cls == 'OperatorDescriptor' and f['id'] // 1000 != 205):
+                kind_read = reads.pop(0)[0] if reads else None
+            if kind_read == 'read_int':
+                other.append(v)     # a new reference value (203YYY) is the same in every subset of a compressed message
+                continue
+            if d.cls == 'ElementDescriptor' and f.get('unit') in ('K', 'PA') and isinstance(v, (int, float)) and not isinstance(v, bool):
+                other.append(round(v + 10 ** -f.get('scale', 0), 6) if f.get('scale', 0) >= 0 else v + 10 ** -f.get('scale', 0))
+            else:
+                other.append(v)
+        for label, subsets in (('two equal subsets', [list(o.vals), list(o.vals)]), ('two subsets with different measurements', [list(o.vals), other]),
+                               ('one subset', [list(o.vals)])):
+            rr.instance('template "%s", %s' % (name, label))
+            e, d, st, rd = P.code_compressed(repo, members, subsets)
+            if not e.ok:
+                rr.fail(key, 'pybufrkit/encoder.py', 'template "%s", %s: the compressed encoder walk ends in %s on values the uncompressed decoder produced (%s)' % (
+                    name, label, e.exc.cls, _short_v(subsets[0])), witness={'template': name, 'case': label})
+                continue
+            if not d.ok:
+                rr.fail(key, 'pybufrkit/decoder.py', 'template "%s", %s: the compressed decoder walk ends in %s on what the encoder wrote%s' % (
+                    name, label, d.exc.cls, ' (%s)' % rd.problem if rd.problem else ''), witness={'template': name, 'case': label})
+                continue
+            got = st.fields['decoded_values_all_subsets']
+            problems = []
+            if len(rd.log) != rd.k:
+                problems.append('%d of the %d fields written are not read' % (len(rd.log) - rd.k, len(rd.log)))
+            for k, (g, w) in enumerate(zip(got, subsets)):
+                if len(g) != len(w) or not all(same(a, b) for a, b in zip(g, w)):
+                    dd = [(i, a, b) for i, (a, b) in enumerate(zip(g, w)) if not same(a, b)][:2] or [('count', len(g), len(w))]
+                    problems.append('subset %d reads back differently, first (index, read, given): %s' % (k, dd[0]))
+            if labels(st.fields['decoded_descriptors_all_subsets'][0]) != labels(o.descs):
+                problems.append('labels %s, uncompressed %s' % (labels(st.fields['decoded_descriptors_all_subsets'][0]), labels(o.descs)))
+            if dict(st.fields['bitmap_links_all_subsets'][0]) != dict(o.links):
+                problems.append('links %s, uncompressed %s' % (dict(st.fields['bitmap_links_all_subsets'][0]), dict(o.links)))
+            if problems:
+                rr.fail(key, 'pybufrkit/encoder.py', 'template "%s", %s: %s' % (name, label, '; '.join(problems)), witness={'template': name, 'case': label})
+    rr.require_floor(40)
+    return rr
+
+
+def _short_v(v):
+    s = repr(v)
+    return s if len(s) < 160 else s[:157] + '...'
+
 
 def rule_state_mode(repo, rule):
     rr = RuleResult(rule, 'the data section is processed in the mode the header declares: CoderState gets the message\'s compression flag and subset count')
@@ -314,6 +392,7 @@ def run(repo, check):
     check.add(r6)
     check.run_rule(rule_r7, repo)
     check.run_rule(rule_state_mode, repo, 'C05.R8')
+    check.run_rule(rule_pipeline_compressed, repo)
     from sa.rules import c01
     r9 = c01.rule_r7(repo)
     r9.rule = 'C05.R9'
